@@ -1,8 +1,8 @@
 (* C06 - an embedded ICC profile is returned byte-for-byte, or reported absent or corrupt.
-   WebP (VP8X + ICCP) is proved here for every profile of any size; PNG iCCP and the JPEG APP2
-   any-order reassembly: see DESIGN.md (status). *)
+   WebP (VP8X + ICCP) and PNG iCCP (inflate as a stated oracle) are proved here for every profile of any
+   size; the JPEG APP2 any-order reassembly: see DESIGN.md (status). *)
 From Coq Require Import List NArith. From Coq Require Import Strings.Byte.
-From PrismV Require Import IO.IO IO.IOTheory IO.Parse Meta.Meta Meta.MetaProofs Meta.WebpProofs.
+From PrismV Require Import IO.IO IO.IOTheory IO.Parse Meta.Meta Meta.MetaProofs Meta.WebpProofs Meta.PngProofs IO.Encode.
 Import ListNotations.
 
 Theorem C06_webp_profile_byte_for_byte : forall inflate total flags r1 r2 r3 w1 h1 profile rest fuel,
@@ -19,3 +19,28 @@ Theorem C06_webp_no_profile : forall inflate total flags r1 r2 r3 w1 h1 rest fue
   = (Ok {| md_format := WEBP; md_w := w1 + 1; md_h := h1 + 1; md_bits := 8; md_icc := IccNone |}, rest).
 Proof. exact webp_vp8x_meta_no_profile. Qed.
 Print Assumptions C06_webp_no_profile.
+
+(* PNG iCCP at any position among the ancillary chunks, name of 1..79 non-NUL bytes, any deflate
+   stream z: when zlib inflates z to a non-empty profile, exactly those bytes are returned - their
+   size never enters the proof - and nothing after the iCCP chunk is read *)
+Theorem C06_png_profile_byte_for_byte : forall inflate w h depth rest crc ancs1 name z icrc tail profile fuel,
+  (w < 4294967296)%N -> (h < 4294967296)%N -> length crc = 4 -> (lenN (ihdr_data w h depth rest) < 4294967296)%N ->
+  Forall anc_ok ancs1 -> name_ok name -> z <> [] -> length icrc = 4 -> (lenN (iccp_data name z) < 4294967296)%N ->
+  inflate z = Some profile -> profile <> [] ->
+  length ancs1 + 2 <= fuel -> length rest <= fuel -> Forall (fun a => length (a_data a) <= fuel) ancs1 ->
+  run_pure inflate (png_prog fuel) (png_file_icc w h depth rest crc ancs1 name z icrc tail)
+  = (Ok {| md_format := PNG; md_w := w; md_h := h; md_bits := bN depth; md_icc := IccData profile |}, tail).
+Proof. exact png_meta_icc. Qed.
+Print Assumptions C06_png_profile_byte_for_byte.
+
+(* a corrupt deflate stream: the basic metadata is still returned and the profile accessor errors *)
+Theorem C06_png_corrupt_stream : forall inflate w h depth rest crc ancs1 name z icrc ancs2 endlen body fuel,
+  (w < 4294967296)%N -> (h < 4294967296)%N -> length crc = 4 -> (lenN (ihdr_data w h depth rest) < 4294967296)%N ->
+  Forall anc_ok ancs1 -> Forall anc_ok ancs2 -> name_ok name -> z <> [] -> length icrc = 4 -> (lenN (iccp_data name z) < 4294967296)%N ->
+  inflate z = None -> (endlen < 4294967296)%N ->
+  length ancs1 + length ancs2 + 3 <= fuel -> length rest <= fuel ->
+  Forall (fun a => length (a_data a) <= fuel) ancs1 -> Forall (fun a => length (a_data a) <= fuel) ancs2 ->
+  run_pure inflate (png_prog fuel) (png_file_icc w h depth rest crc ancs1 name z icrc (concat (map anc_bytes ancs2) ++ u32be endlen ++ ty_IDAT ++ body))
+  = (Ok {| md_format := PNG; md_w := w; md_h := h; md_bits := bN depth; md_icc := IccErr |}, body).
+Proof. exact png_meta_icc_corrupt. Qed.
+Print Assumptions C06_png_corrupt_stream.
